@@ -96,6 +96,57 @@ func pool(f Field) []string {
 	return nil
 }
 
+// zeroOf is the canonical rendering of the Go zero value of the option's kind ("" for kinds the
+// stream does not know; ok=false then).
+func zeroOf(f Field) (string, bool) {
+	switch f.Kind {
+	case "string":
+		return "", true
+	case "bool":
+		return "false", true
+	case "uint", "int", "float":
+		return "0", true
+	case "duration":
+		return "0s", true
+	}
+	return "", false
+}
+
+// mustValues are the values every option is taken through in EVERY run, whatever the seed: the zero
+// value of its kind (a writer that omits "empty" values, a reader that treats zero as "unset"), the
+// default itself, and one value that is neither - in particular zero for options whose default is
+// not zero.
+func mustValues(f Field, save bool) []string {
+	var out []string
+	add := func(v string) {
+		for _, x := range out {
+			if x == v {
+				return
+			}
+		}
+		if save && f.Kind == "string" && Exotic(v) {
+			return
+		}
+		out = append(out, v)
+	}
+	z, ok := zeroOf(f)
+	if ok {
+		add(z)
+	}
+	add(f.Def)
+	p := pool(f)
+	if save {
+		p = savePool(f)
+	}
+	for _, v := range p {
+		if v != z && v != f.Def {
+			add(v)
+			break
+		}
+	}
+	return out
+}
+
 func savePool(f Field) []string {
 	if f.Kind == "string" {
 		return safeStrings()
@@ -202,7 +253,63 @@ func (g *gen) genesisOp(cid string, ih uint64, t string, off int, pa string) {
 	fmt.Fprintf(g.w, "genesis cid=%s ih=%d t=%s off=%d pa=%s\n", hexS(cid), ih, t, off, pa)
 }
 
-func (g *gen) randGenesis() {
+// genesisAt saves to (and loads from) the scenario's path number `at`, which keeps whatever an
+// earlier op of the scenario wrote there.
+func (g *gen) genesisAt(at int, cid string, ih uint64, t string, off int, pa string) {
+	fmt.Fprintf(g.w, "genesis at=%d cid=%s ih=%d t=%s off=%d pa=%s\n", at, hexS(cid), ih, t, off, pa)
+}
+
+// samePath: genesis documents of different encoded lengths saved to the SAME path - longer first,
+// then shorter (by many bytes and by exactly one byte), then longer again - with a load after every
+// save, a second load later, a second path that must not be disturbed, and invalid documents
+// written over valid ones (and the other way round).
+func (g *gen) samePath() {
+	r, w := g.r, g.w
+	long := strings.Repeat("a-rather-long-chain-id.", 4)
+	a64, a32, a20, a1 := hx.Hex(r.Bytes(64)), hx.Hex(r.Bytes(32)), hx.Hex(r.Bytes(20)), hx.Hex(r.Bytes(1))
+	fmt.Fprintln(w, "reset")
+	fmt.Fprintln(w, "gload at=1")
+	g.genesisAt(1, long, math.MaxUint64, "1700000000.123456789", 330, a64)
+	g.genesisAt(2, "other-path", 7, "1700000001.5", -60, a32)
+	g.genesisAt(1, "c", 1, "1700000000.0", 0, "-")
+	fmt.Fprintln(w, "gload at=1")
+	fmt.Fprintln(w, "gload at=2")
+	g.genesisAt(1, "mid-chain", 1000, "1700000000.5", 60, a20)
+	g.genesisAt(1, "c", 1, "1700000000.0", 0, a1)
+	g.genesisAt(1, long, 1, "1700000000.0", 0, a32)
+	fmt.Fprintln(w, "gload at=1")
+	fmt.Fprintln(w, "gload at=3")
+	// one byte shorter each time, then one byte longer each time
+	fmt.Fprintln(w, "reset")
+	for n := 9; n >= 1; n-- {
+		g.genesisAt(1, strings.Repeat("x", n), 1, "1700000000.0", 0, a20)
+	}
+	for n := 2; n <= 4; n++ {
+		g.genesisAt(1, strings.Repeat("x", n), 1, "1700000000.0", 0, a20)
+	}
+	for _, ih := range []uint64{1000000, 99999, 100, 9, 10} {
+		g.genesisAt(1, "xxxx", ih, "1700000000.0", 0, a20)
+	}
+	for _, ns := range []string{"123456789", "120000000", "0", "5"} {
+		g.genesisAt(1, "xxxx", 10, "1700000000."+ns, 0, a20)
+	}
+	fmt.Fprintln(w, "gload at=1")
+	// invalid over valid, valid over invalid: each refused / accepted for its own reason
+	fmt.Fprintln(w, "reset")
+	g.genesisAt(1, long, 5, "1700000000.5", 0, a32)
+	g.genesisAt(1, "", 5, "1700000000.5", 0, a32)
+	fmt.Fprintln(w, "gload at=1")
+	g.genesisAt(1, "c", 5, "1700000000.5", 0, "nil")
+	g.genesisAt(1, "c", 0, "1700000000.5", 0, a1)
+	g.genesisAt(1, "c", 1, "zero", 0, a1)
+	g.genesisAt(1, "c", 1, "1700000000.5", 0, a1)
+	fmt.Fprintln(w, "gload at=1")
+	g.genesisAt(1, long, 0, "1700000000.5", 0, a32)
+	g.genesisAt(1, "ok", 2, "1700000000.5", 0, "-")
+	fmt.Fprintln(w, "gload at=1")
+}
+
+func (g *gen) randGenesis(at int) {
 	r := g.r
 	cid := stringPool[r.Intn(len(stringPool))]
 	if cid == "" && !r.Chance(20) {
@@ -234,6 +341,10 @@ func (g *gen) randGenesis() {
 	default:
 		pa = hx.Hex(r.Bytes(32))
 	}
+	if at > 0 {
+		g.genesisAt(at, cid, ih, t, off, pa)
+		return
+	}
 	g.genesisOp(cid, ih, t, off, pa)
 }
 
@@ -251,7 +362,8 @@ func Gen(r *hx.Rng, tier string, w io.Writer) {
 	}
 	opts := g.options()
 
-	// 1. every registered flag reaches an option (deliberately includes the known-ignored ones)
+	// 1. every registered flag reaches an option (all of them: a flag bound to a key no field decodes
+	// from - as the two signer flags were until /repo b15f31a - shows here)
 	fmt.Fprintln(w, "reset")
 	for _, fl := range g.fl {
 		if fl.Name == "home" {
@@ -283,8 +395,11 @@ func Gen(r *hx.Rng, tier string, w io.Writer) {
 		if tier != "thorough" && n > 12 {
 			n = 12
 		}
+		vals := mustValues(f, false)
 		for _, i := range r.Perm(len(p))[:n] {
-			v := p[i]
+			vals = append(vals, p[i])
+		}
+		for _, v := range vals {
 			fmt.Fprintf(w, "load f=%s fl=- fi=%s\n", f.Go, showPairs([]pair{{f.YAML, v}}))
 			if has {
 				fmt.Fprintf(w, "load f=%s fl=%s fi=-\n", f.Go, showPairs([]pair{{nf.Name, v}}))
@@ -300,6 +415,10 @@ func Gen(r *hx.Rng, tier string, w io.Writer) {
 		if tier != "thorough" && n > saves*4 {
 			n = saves * 4
 		}
+		// zero of the kind, the default, a third value: in every run, for every option
+		for _, v := range mustValues(f, true) {
+			fmt.Fprintf(w, "save set=%s\n", showPairs([]pair{{f.Go, v}}))
+		}
 		for _, i := range r.Perm(len(p))[:n] {
 			fmt.Fprintf(w, "save set=%s\n", showPairs([]pair{{f.Go, p[i]}}))
 		}
@@ -309,6 +428,50 @@ func Gen(r *hx.Rng, tier string, w io.Writer) {
 			}
 		}
 	}
+	// whole configurations: the defaults, every option at the zero value of its kind, every option
+	// at a non-default value, every group (Go struct) at zero while the rest keeps its default
+	fmt.Fprintln(w, "reset")
+	fmt.Fprintln(w, "save set=-")
+	var allZero, allOther []pair
+	groups := map[string][]pair{}
+	var groupOrder []string
+	for _, f := range opts {
+		z, ok := zeroOf(f)
+		if !ok {
+			continue
+		}
+		allZero = append(allZero, pair{f.Go, z})
+		mv := mustValues(f, true)
+		allOther = append(allOther, pair{f.Go, mv[len(mv)-1]})
+		grp := f.Go
+		if i := strings.LastIndex(grp, "."); i >= 0 {
+			grp = grp[:i]
+		}
+		if _, seen := groups[grp]; !seen {
+			groupOrder = append(groupOrder, grp)
+		}
+		groups[grp] = append(groups[grp], pair{f.Go, z})
+	}
+	fmt.Fprintf(w, "save set=%s\n", showPairs(allZero))
+	fmt.Fprintf(w, "save set=%s\n", showPairs(allOther))
+	for _, grp := range groupOrder {
+		fmt.Fprintf(w, "save set=%s\n", showPairs(groups[grp]))
+	}
+	// the same home written again: a long file first, then shorter ones over it, then long again
+	fmt.Fprintln(w, "reset")
+	var allLong []pair
+	for _, f := range opts {
+		if f.Kind == "string" {
+			allLong = append(allLong, pair{f.Go, strings.Repeat("a long value ", 6) + f.Go})
+		}
+	}
+	fmt.Fprintf(w, "save at=1 set=%s\n", showPairs(allLong))
+	fmt.Fprintf(w, "save at=1 set=%s\n", showPairs(allZero))
+	fmt.Fprintf(w, "save at=1 set=-\n")
+	fmt.Fprintf(w, "save at=1 set=%s\n", showPairs(allLong[:len(allLong)/2]))
+	fmt.Fprintf(w, "save at=1 set=%s\n", showPairs(allOther))
+	fmt.Fprintf(w, "save at=1 set=%s\n", showPairs(allZero))
+	// random configurations, all written to one home
 	fmt.Fprintln(w, "reset")
 	for i := 0; i < saves*10; i++ {
 		var set []pair
@@ -318,15 +481,17 @@ func Gen(r *hx.Rng, tier string, w io.Writer) {
 				set = append(set, pair{f.Go, p[r.Intn(len(p))]})
 			}
 		}
-		fmt.Fprintf(w, "save set=%s\n", showPairs(set))
+		fmt.Fprintf(w, "save at=1 set=%s\n", showPairs(set))
 		if r.Chance(30) {
 			g.load(opts[r.Intn(len(opts))], r.Bool(), r.Bool(), 4)
 		}
 	}
 
-	// 5. the shared default pointer: what one Load resolved is the next Load's "default" (known finding)
+	// 5. memory shared with DefaultConfig: what one Load resolved must not be the next Load's
+	// "default" (repaired in /repo 76d1c39 for the Instrumentation pointer). Every option in turn,
+	// shared or not according to the structural walk: file value first, then nothing.
 	for _, f := range opts {
-		if f.Via == "" {
+		if f.Via == "" && tier != "thorough" && !r.Chance(25) {
 			continue
 		}
 		fmt.Fprintln(w, "reset")
@@ -378,11 +543,21 @@ func Gen(r *hx.Rng, tier string, w io.Writer) {
 	g.genesisOp("c", 1, "1700000000.5", 0, "-")
 	g.genesisOp("", 0, "zero", 0, "nil")
 	g.genesisOp("c", math.MaxUint64, "0.0", 840, a32)
+	g.samePath()
 	for i := 0; i < nGenesis; i++ {
 		if i%20 == 0 {
 			fmt.Fprintln(w, "reset")
 		}
-		g.randGenesis()
+		// two thirds of the documents go to one of two paths the scenario re-uses (random lengths, so
+		// longer-then-shorter happens all the time), the rest to a fresh path each
+		at := 0
+		if r.Chance(66) {
+			at = 1 + r.Intn(2)
+		}
+		g.randGenesis(at)
+		if r.Chance(15) {
+			fmt.Fprintf(w, "gload at=%d\n", 1+r.Intn(3))
+		}
 	}
 	_ = strings.TrimSpace
 }
